@@ -8,6 +8,11 @@ def main() -> int:
     if os.environ.get("PYTHONHASHSEED") != "0":
         env = dict(os.environ, PYTHONHASHSEED="0", PYTHONWARNINGS="ignore::SyntaxWarning")
         os.execve(sys.executable, [sys.executable, "-m", "kverif"] + sys.argv[1:], env)
+    if os.environ.get("KVERIF_DEBUG"):
+        import faulthandler
+        import signal
+
+        faulthandler.register(signal.SIGUSR1, all_threads=True)  # inherited by the forked workers
     ap = argparse.ArgumentParser(prog="kverif")
     sub = ap.add_subparsers(dest="cmd", required=True)
     c = sub.add_parser("check")
